@@ -24,7 +24,21 @@ MIN_NONTRIVIAL = 1
 PROBES = ["x", "y/z"]
 
 
-def base_config(perm):
+def base_config(perm, dup=0):
+    """dup=1/2: a second base ruleset that is also called r1 (own plugins b3.*, opposite permissions), right after the first
+    or at the end; docs/drop_in_configs.md: 'If there is more than one match, the first base ruleset will be chosen'"""
+    if len(perm) == 7:
+        perm, dup = perm[:6], perm[6]
+    cfg = base_config0(perm)
+    if dup:
+        d1, a1, dis1 = perm[:3]
+        twin = {"name": "r1", "drop-in": {"detectors": not d1, "actions": not a1, "disable-on-drop-in": not dis1}, "post_action_delay": "0",
+                "detectors": [["g1", W.det("b3.d1")]], "actions": [W.act("b3.a1")]}
+        cfg["rulesets"].insert(1 if dup == 1 else 2, twin)
+    return cfg
+
+
+def base_config0(perm):
     d1, a1, dis1, d2, a2, dis2 = perm
     return {"rulesets": [
         {"name": "r1", "drop-in": {"detectors": d1, "actions": a1, "disable-on-drop-in": dis1}, "post_action_delay": "0",
@@ -77,9 +91,17 @@ class Model:
     def __init__(self, base, ghost=False):
         self.base = base
         self.ghost = ghost  # the adaptor's root knows ruleset r3, the engine does not
-        self.rs = {r["name"]: r for r in base["rulesets"]}
-        self.order = [r["name"] for r in base["rulesets"]]
-        self.dropins = {n: [] for n in self.order}  # newest first: (tag, det ids, act ids)
+        self.bases = base["rulesets"]
+        self.first = {}  # name -> index of the first base ruleset of that name (the one a drop-in targets)
+        for i, r in enumerate(self.bases):
+            self.first.setdefault(r["name"], i)
+        self.rs = {n: self.bases[i] for n, i in self.first.items()}
+        self.order = list(range(len(self.bases)))
+        self.dropins = {i: [] for i in self.order}  # newest first: (tag, det ids, act ids)
+        self.owner = {}
+        for i, r in enumerate(self.bases):
+            for x in sum(self.ids(r), []):
+                self.owner[x] = i
         self.hooks = []  # newest first: (tag, [(id, pats)])
         self.base_hooks = [(h["args"]["id"], h["args"]["cgroup"]) for h in base.get("prekill_hooks", [])]
         self.engine_refused = 0
@@ -122,14 +144,14 @@ class Model:
             b = self.rs[r["name"]]
             bd, ba = self.ids(b)
             dd, da = self.ids(r)
-            self.dropins[r["name"]].insert(0, (tag, dd or bd, da or ba))
+            self.dropins[self.first[r["name"]]].insert(0, (tag, dd or bd, da or ba))
         hs = [(h["args"]["id"], h["args"]["cgroup"]) for h in cfg.get("prekill_hooks", [])]
         if hs:
             self.hooks.insert(0, (tag, hs))
         return True
 
     def enabled(self, n):
-        return not (self.rs[n]["drop-in"]["disable-on-drop-in"] and self.dropins[n])
+        return not (self.bases[n]["drop-in"]["disable-on-drop-in"] and self.dropins[n])
 
     def tick(self):
         pre, run = [], []
@@ -137,13 +159,13 @@ class Model:
             for tag, dd, da in self.dropins[n]:
                 pre += dd + da
             if self.enabled(n):
-                bd, ba = self.ids(self.rs[n])
+                bd, ba = self.ids(self.bases[n])
                 pre += bd + ba
         for n in self.order:
             for tag, dd, da in self.dropins[n]:
                 run += dd + da
             if self.enabled(n):
-                bd, ba = self.ids(self.rs[n])
+                bd, ba = self.ids(self.bases[n])
                 run += bd + ba
         return ["prerun:" + x for x in pre] + ["run:" + x for x in run]
 
@@ -224,7 +246,9 @@ def sequences(seed, tier):
             seq = [(o + (True,)) if rng.random() < 0.5 else o for o in seq]
         out.append(seq)
     perms = list(itertools.product([True, False], repeat=6))
-    return [(seq, perms[(i * 7 + 3) % 64] if i % 3 else (True, True, i % 2 == 0, False, True, i % 4 == 0)) for i, seq in enumerate(out)]
+    res = [(seq, perms[(i * 7 + 3) % 64] if i % 3 else (True, True, i % 2 == 0, False, True, i % 4 == 0)) for i, seq in enumerate(out)]
+    # every fifth sequence runs against a base config with two rulesets named r1 (7th element: where the twin sits)
+    return [(seq, perm + ((1 + i // 5 % 2,) if i % 5 == 4 else (0,))) for i, (seq, perm) in enumerate(res)]
 
 
 def is_ghost(seq):
@@ -331,13 +355,14 @@ def judge(case, results):
                     pid_, inst = x.split("#")[0].split(":")[1], x.split("#")[1]
                     seen.setdefault(pid_, set()).add(inst)
                 for pid_, insts in seen.items():
-                    if pid_ in base_insts and m.enabled(pid_.split(".")[0].replace("b", "r")) and base_insts[pid_] not in insts:
+                    if pid_ in base_insts and m.enabled(m.owner[pid_]) and base_insts[pid_] not in insts:
                         v.bad("base-instance-replaced", "", "seq %s step %d: base plugin %s no longer runs with its own instance" % (seq, si, pid_))
                 if m.added() >= 2:
                     multi += 1
                 prev = st
                 pending_deferred = False
             v.count("adds_refused_by_engine", m.engine_refused)
+            v.count("sequences_with_duplicate_base_name", 1 if perm[6] else 0)
             i += 1
         else:
             a2, crash2 = ans[i + 1]
